@@ -92,7 +92,7 @@ if bd.is_dir():
         nben += 1
         notes = (d / "notes.md").read_text().splitlines() if (d / "notes.md").exists() else [""]
         first = next((l.strip("# ").strip() for l in notes if l.strip()), "")
-        kind = {"a": "refactoring", "b": "equivalent re-spelling", "c": "benign extension"}.get(d.name[-1], d.name.split("_")[-1])
+        kind = {"a": "refactoring", "b": "equivalent re-spelling", "c": "benign extension", "d": "deep refactoring (wave 5)", "e": "deep refactoring (wave 5)", "f": "deep refactoring (wave 5)"}.get(d.name[-1], d.name.split("_")[-1])
         rows.append(f"| {d.name} | {kind} | {esc(first[:150])} |")
 BENIGN = "\n".join(rows)
 
@@ -101,10 +101,19 @@ nrules = sum(len(importlib.import_module(f"sa.rules.{p['id'].lower()}").RULES) f
 stats = (f"Current numbers: {nrules} rules over 20 properties, {len(fixed)} repaired and {len(known)} known findings, "
          f"{n_fix_commits} `fix:` commits in `/repo`, {nseeds} stored mutations, {nben} stored behaviour-preserving changes.")
 
+from sa import pymodel   # noqa: E402
+try:
+    _py = pymodel.PyModel(Path("/repo")) if hasattr(pymodel, "PyModel") else None
+    st = getattr(_py, "inline_stats", None) or {}
+    inline_stats = ", ".join(f"{v if not isinstance(v, (list, set, tuple, dict)) else len(v)} {k.strip('_').replace('_', ' ')}"
+                             for k, v in st.items()) or "n/a"
+except Exception as e:      # the design text must still be generated
+    inline_stats = f"n/a ({e})"
+
 t = (V / "tools" / "design_template.md").read_text()
 for k, v in {"{{PER_PROPERTY}}": PER, "{{FINDINGS_FIXED}}": FIXED, "{{FINDINGS_KNOWN}}": KNOWN, "{{SEEDS}}": SEEDS,
              "{{BENIGN}}": BENIGN, "{{STATS}}": stats, "{{N_FIXED}}": str(len(fixed)), "{{N_KNOWN}}": str(len(known)),
-             "{{N_COMMITS}}": str(n_fix_commits), "{{WAVE4}}": wave4}.items():
+             "{{N_COMMITS}}": str(n_fix_commits), "{{WAVE4}}": wave4, "{{INLINE_STATS}}": inline_stats}.items():
     t = t.replace(k, v)
 (V / "DESIGN.md").write_text(t)
 print("DESIGN.md written:", len(t.splitlines()), "lines;", stats)
